@@ -51,7 +51,7 @@ Uneq4 == [id |-> "uneq4", T |-> 5,
 \* finite-rate stations whose lowest level is fractional (7.5 A): the minimum pilot of uninterrupted
 \* charging is stored truncated (TruncA in SortedAlgo.tla); pod limit 22.4 A: 15 + 7.5 does not fit
 L75 == <<0, 750000, 1500000, 2250000, 3000000>>
-Frac3 == [id |-> "frac3", T |-> 5,
+Frac3 == [id |-> "frac3", T |-> 7,      \* ... and a period that does not divide an hour (60/7 periods per hour)
           st |-> <<Fin(L75, 208, 0), Fin(L75, 208, 0), Cont(32 * A, 208, 0)>>,
           con |-> <<Con(<<1, 1, 0>>, 2240000), Con(<<1, 1, 1>>, 5003700)>>]
 \* coefficients larger than 1 (a station counted twice / a transformer ratio): the weighted line binds
@@ -138,6 +138,14 @@ OptsRR01 == OptsRR({"fcfs", "llf"}, {FALSE}, {10000})
 InfrasShare == {Single3, Delta3f}
 ProfShare == {PA, PF, PB}
 OptsShare == {O("greedy", so, TRUE, FALSE, 0) : so \in {"fcfs", "lcfs", "llf"}} \cup OptsRR({"fcfs"}, {FALSE}, {250000})
+
+\* round robin with a small documented increment (0.02 A): about 3000 raises until the 60.037 A limit binds -
+\* the loop runs until every session is blocked, however many steps that takes
+InfrasRR002 == {[id |-> "rr002", T |-> 5,
+                 st |-> <<Cont(32 * A, 208, 0), Cont(32 * A, 208, 0)>>,
+                 con |-> <<Con(<<1, 1>>, 6003700)>>]}
+ProfRR002 == {PA, PF}
+OptsRR002 == OptsRR({"fcfs"}, {FALSE}, {2000})
 
 ASSUME \A n \in Infras : \A k \in 1..Len(n.con) : n.con[k].lim <= 100 * U /\ Len(n.con[k].coef) = Len(n.st)
 =============================================================================
